@@ -413,10 +413,38 @@ fn token_with(addrs: &[SocketAddr], salt: u8) -> ConnectToken {
     }
 }
 
+/// a reader that hands out at most `chunk` bytes per read call (a socket, a pipe, a chunked body)
+struct Chunked<'a> {
+    data: &'a [u8],
+    chunk: usize,
+}
+
+impl<'a> std::io::Read for Chunked<'a> {
+    fn read(&mut self, buf: &mut [u8]) -> std::io::Result<usize> {
+        let n = buf.len().min(self.chunk).min(self.data.len());
+        buf[..n].copy_from_slice(&self.data[..n]);
+        self.data = &self.data[n..];
+        Ok(n)
+    }
+}
+
 fn token_roundtrip(t: &ConnectToken) -> Option<Violation> {
     let mut bytes = vec![];
     if let Err(e) = t.write(&mut bytes) {
         return Some(Violation::new("C16/token-write-fails", format!("{}", e)));
+    }
+    // the same serialization read back through readers that deliver 1, 7 or 1000 bytes per call
+    for chunk in [1usize, 7, 1000] {
+        let r = crate::link::guard("ConnectToken::read", || ConnectToken::read(&mut Chunked { data: &bytes, chunk }));
+        match r {
+            Err(v) => return Some(Violation::new("C16/token-read-panics", v.message)),
+            Ok(Err(e)) => return Some(Violation::new("C16/token-does-not-read-from-a-chunked-reader", format!("reader delivering {} bytes per call: {}", chunk, e))),
+            Ok(Ok(q)) => {
+                if &q != t {
+                    return Some(Violation::new("C16/token-roundtrip-differs-through-a-chunked-reader", format!("reader delivering {} bytes per call", chunk)));
+                }
+            }
+        }
     }
     match crate::link::guard("ConnectToken::read", || ConnectToken::read(&mut &bytes[..])) {
         Err(v) => Some(Violation::new("C16/token-read-panics", v.message)),
